@@ -174,13 +174,9 @@ func ReadFile(r Reader, out interface{}, cb func(val unsafe.Pointer, rb *Resourc
 		if dataLength < 0 {
 			return fmt.Errorf("negative data block length %d", dataLength)
 		}
-		if cap(compressed) < int(dataLength) {
-			compressed = make([]byte, dataLength)
-		} else {
-			compressed = compressed[:dataLength]
-		}
-		if n, err := io.ReadFull(r, compressed); err != nil {
-			return fmt.Errorf("reading %d bytes of compressed data: %w after %d bytes", dataLength, err, n)
+		compressed, err = readN(r, compressed, dataLength)
+		if err != nil {
+			return fmt.Errorf("reading %d bytes of compressed data: %w after %d bytes", dataLength, err, len(compressed))
 		}
 		uncompressed, err := decoder.decompress(compressed)
 		if err != nil {
@@ -267,9 +263,34 @@ func readBytes(r Reader) ([]byte, error) {
 	if l < 0 {
 		return nil, fmt.Errorf("negative length %d", l)
 	}
-	v := make([]byte, l)
-	_, err = io.ReadFull(r, v)
-	return v, err
+	return readN(r, nil, l)
+}
+
+// readN reads exactly n bytes from r, reusing buf's memory when it is big
+// enough. The buffer grows as data arrives rather than being allocated from
+// the declared length, so a length that the input does not back cannot make
+// us allocate (or panic in make) beyond what was actually read.
+func readN(r io.Reader, buf []byte, n int64) ([]byte, error) {
+	const chunk = 1 << 20
+	buf = buf[:0]
+	for int64(len(buf)) < n {
+		want := n - int64(len(buf))
+		if want > chunk {
+			want = chunk
+		}
+		start := len(buf)
+		if cap(buf)-start >= int(want) {
+			buf = buf[:start+int(want)]
+		} else {
+			buf = append(buf, make([]byte, want)...)
+		}
+		m, err := io.ReadFull(r, buf[start:])
+		buf = buf[:start+m]
+		if err != nil {
+			return buf, err
+		}
+	}
+	return buf, nil
 }
 
 func (fh FileHeader) schema() (schema Schema, err error) {
